@@ -497,6 +497,9 @@ func serveStress(s *Summary, rng *rand.Rand, n int, out *traceWriter) {
 			rl.log = append(rl.log, []any{"main", "o"})
 			c.Text(200, "main:"+rid+":")
 		})
+		// a later registered route of the same bucket that matches everything /b/{id} matches: it never wins, whatever else
+		// goes on (the read-only views of the route table - String(), Routes(), GetRoute() - are called while requests are served)
+		r.GET("/b/{aa:.+}", func(c *rux.Context) { c.Text(200, "shadowed route") })
 		// a route whose middleware puts a wrapper of its own in place of the response writer for ITS request (a tagging
 		// writer); the wrapper must not be there for any other request
 		r.GET("/w", func(c *rux.Context) {
@@ -536,6 +539,12 @@ func serveStress(s *Summary, rng *rand.Rand, n int, out *traceWriter) {
 				defer wg.Done()
 				for i := 0; i < per; i++ {
 					kind := kinds[wr.Intn(len(kinds))]
+					if wr.Intn(25) == 0 { // an admin page / a health check looks at the route table
+						_ = r.String()
+						_ = r.Routes()
+						_ = r.GetRoute("nothing")
+						_ = len(r.NamedRoutes())
+					}
 					id := fmt.Sprintf("w%d-%d", w, i)
 					if kind == "b" && wr.Intn(2) == 0 {
 						id = fmt.Sprintf("k%d", wr.Intn(3)) // repeated dynamic paths: cache hits
